@@ -728,16 +728,15 @@ def eliminate_attribute_aliases(tree):
                     p = _path(vv)
                     if p is None or tt.id in params or stores.get(tt.id) != 1:
                         continue
-                    root_ok = (p[0] in params and stores.get(p[0], 0) == 0) or (p[0] not in params and stores.get(p[0], 0) == 1
-                                                                                 and p[0] not in cands)
-                    if not root_ok:
+                    if p[0] in cands:
                         continue
-                    if p[0] not in params:
-                        # a local root (e.g. a loop variable): its one binding must come before the alias in the text
-                        first = min((y.lineno for y in ast.walk(fn) if isinstance(y, ast.Name) and y.id == p[0]
-                                     and isinstance(y.ctx, ast.Store)), default=None)
-                        if first is None or first > x.lineno:
-                            continue
+                    # every (re)binding of the root must come before the alias in the text (a parameter that is normalised
+                    # first, a loop variable bound by the enclosing loop); a local root must have exactly one binding
+                    root_stores = [y.lineno for y in ast.walk(fn) if isinstance(y, ast.Name) and y.id == p[0] and isinstance(y.ctx, ast.Store)]
+                    if p[0] not in params and len(root_stores) != 1:
+                        continue
+                    if any(ln >= x.lineno for ln in root_stores):
+                        continue
                     if any(p[:k] in rebound for k in range(2, len(p) + 1)):
                         continue
                     cands[tt.id] = (vv, x, i)
@@ -783,6 +782,109 @@ def eliminate_attribute_aliases(tree):
     ast.fix_missing_locations(tree)
 
 
+class _GetAttr(ast.NodeTransformer):
+    """N12  getattr(x, "name") -> x.name ; setattr(x, "name", v) as a statement -> x.name = v   (constant identifier names only)"""
+
+    def visit_Call(self, c):
+        self.generic_visit(c)
+        if isinstance(c.func, ast.Name) and c.func.id == "getattr" and len(c.args) == 2 and not c.keywords and isinstance(c.args[1], ast.Constant) \
+                and isinstance(c.args[1].value, str) and c.args[1].value.isidentifier():
+            return ast.copy_location(ast.Attribute(value=c.args[0], attr=c.args[1].value, ctx=ast.Load()), c)
+        return c
+
+    def visit_Expr(self, st):
+        self.generic_visit(st)
+        c = st.value
+        if isinstance(c, ast.Call) and isinstance(c.func, ast.Name) and c.func.id == "setattr" and len(c.args) == 3 and not c.keywords \
+                and isinstance(c.args[1], ast.Constant) and isinstance(c.args[1].value, str) and c.args[1].value.isidentifier():
+            new = ast.Assign(targets=[ast.Attribute(value=c.args[0], attr=c.args[1].value, ctx=ast.Store())], value=c.args[2])
+            return ast.copy_location(new, st)
+        return st
+
+
+def _const_table(e, consts):
+    """a literal tuple/list of constants (or of tuples of constants), possibly through a module/class-level name"""
+    if isinstance(e, ast.Name) and e.id in consts:
+        e = consts[e.id]
+    if isinstance(e, ast.Attribute) and isinstance(e.value, ast.Name) and e.attr in consts:
+        e = consts[e.attr]          # self._TABLE / Cls._TABLE
+    if not isinstance(e, (ast.Tuple, ast.List)) or not (1 <= len(e.elts) <= 12):
+        return None
+    rows = []
+    for el in e.elts:
+        if isinstance(el, ast.Constant):
+            rows.append(el)
+        elif isinstance(el, (ast.Tuple, ast.List)) and el.elts and all(isinstance(x, ast.Constant) for x in el.elts):
+            rows.append(el)
+        else:
+            return None
+    return rows
+
+
+def unroll_constant_loops(tree):
+    """N11  `for a, b in TABLE: body` with a small literal table of constants is written out once per row (body-local names get a
+    per-row suffix), so that table-driven guards read like the chain of tests they stand for"""
+    consts = {}
+    for st in tree.body:
+        if isinstance(st, ast.Assign) and len(st.targets) == 1 and isinstance(st.targets[0], ast.Name) and isinstance(st.value, (ast.Tuple, ast.List)):
+            consts[st.targets[0].id] = st.value
+        if isinstance(st, ast.ClassDef):
+            for b in st.body:
+                if isinstance(b, ast.Assign) and len(b.targets) == 1 and isinstance(b.targets[0], ast.Name) and isinstance(b.value, (ast.Tuple, ast.List)):
+                    consts.setdefault(b.targets[0].id, b.value)
+    counter = [0]
+    for fn in ast.walk(tree):
+        if not isinstance(fn, (ast.FunctionDef, ast.AsyncFunctionDef)):
+            continue
+        for node in ast.walk(fn):
+            for fld in ("body", "orelse"):
+                b = getattr(node, fld, None)
+                if not (isinstance(b, list) and b and isinstance(b[0], ast.stmt)):
+                    continue
+                i = 0
+                while i < len(b):
+                    st = b[i]
+                    i += 1
+                    if not (isinstance(st, ast.For) and not st.orelse):
+                        continue
+                    rows = _const_table(st.iter, consts)
+                    if rows is None or any(isinstance(x, (ast.Break, ast.Continue)) for x in ast.walk(st)):
+                        continue
+                    tg = st.target
+                    names = [tg] if isinstance(tg, ast.Name) else (list(tg.elts) if isinstance(tg, (ast.Tuple, ast.List)) and all(
+                        isinstance(x, ast.Name) for x in tg.elts) else None)
+                    if names is None:
+                        continue
+                    if len(names) > 1 and not all(isinstance(r, (ast.Tuple, ast.List)) and len(r.elts) == len(names) for r in rows):
+                        continue
+                    if len(names) == 1 and not all(isinstance(r, ast.Constant) for r in rows) and not isinstance(tg, ast.Name):
+                        continue
+                    loopvars = {n.id for n in names}
+                    if any(isinstance(x, ast.Name) and x.id in loopvars and isinstance(x.ctx, ast.Store) for s2 in st.body for x in ast.walk(s2)):
+                        continue
+                    body_locals = set()
+                    for s2 in st.body:
+                        body_locals |= _names_stored(s2)
+                    # a body-local name that is read after the loop would change meaning when suffixed: leave such loops alone
+                    after = b[i:]
+                    if any(isinstance(x, ast.Name) and x.id in body_locals for s2 in after for x in ast.walk(s2)):
+                        continue
+                    out = []
+                    for r in rows:
+                        counter[0] += 1
+                        vals = [r] if len(names) == 1 else list(r.elts)
+                        mapping = {n.id: v for n, v in zip(names, vals)}
+                        rename = {x: f"{x}_u{counter[0]}" for x in body_locals}
+                        for s2 in st.body:
+                            c2 = _Subst(mapping, rename).visit(copy.deepcopy(s2))
+                            ast.copy_location(c2, s2)
+                            out.append(c2)
+                    b[i - 1:i] = out
+                    i = i - 1 + len(out)
+    _GetAttr().visit(tree)
+    ast.fix_missing_locations(tree)
+
+
 def boolify_tests(tree):
     for n in ast.walk(tree):
         if isinstance(n, (ast.If, ast.While)) and any(isinstance(x, ast.IfExp) for x in ast.walk(n.test)):
@@ -793,6 +895,7 @@ def boolify_tests(tree):
 
 
 def apply(tree, helpers=True):
+    unroll_constant_loops(tree)
     if helpers:
         try:
             Inliner(tree).run()
